@@ -234,7 +234,17 @@ var c16Calls = []c16Call{
 
 func c16Policy(w *gen.World) *validate.Options {
 	q := w.Q
-	return fieldsToOptions(&gen.PolicyFields{MrTd: append([]byte{}, q.MrTd[:]...), ReportData: append([]byte{}, q.ReportData[:]...), MinTeeTcbSvn: make([]byte, 16),
+	// the expected QE vendor ID: none, the quote's, or the quote's written in "GUID" byte order (first three groups
+	// reversed) - a mismatch, and bytes of the caller's that stay what they are
+	var vendor []byte
+	switch q.MrTd[0] % 3 {
+	case 1:
+		vendor = append([]byte{}, q.VendorID[:]...)
+	case 2:
+		v := q.VendorID
+		vendor = []byte{v[3], v[2], v[1], v[0], v[5], v[4], v[7], v[6], v[8], v[9], v[10], v[11], v[12], v[13], v[14], v[15]}
+	}
+	return fieldsToOptions(&gen.PolicyFields{QeVendorID: vendor, MrTd: append([]byte{}, q.MrTd[:]...), ReportData: append([]byte{}, q.ReportData[:]...), MinTeeTcbSvn: make([]byte, 16),
 		Rtmrs: [][]byte{append([]byte{}, q.Rtmr[0][:]...), nil, nil, append([]byte{}, q.Rtmr[3][:]...)}, AnyMrTd: [][]byte{make([]byte, 48), append([]byte{}, q.MrTd[:]...)}})
 }
 
@@ -706,6 +716,18 @@ func TestC16(t *testing.T) {
 			w.ChainNUL = s.Intn(2) == 0 // the optional terminator after the chain
 			if s.Intn(3) == 0 {
 				w.Q.Extra = s.Bytes(1 + s.Intn(40))
+			}
+			if round%3 == 2 {
+				// a quote from a TDX module of a major version (2 or more) the TCB Info has no identity for - it lists an
+				// older one only: verification with collateral fails at the very last step, and fails the same way every time
+				w.Q.TeeTcbSvn[1] = byte(2 + s.Intn(100))
+				w.HonestCollateral()
+				for i := range w.TcbInfo.Identities {
+					w.TcbInfo.Identities[i].ID = "TDX_01"
+				}
+				if len(w.TcbInfo.Identities) == 0 {
+					w.TcbInfo.Identities = []gen.ModuleIdentity{{ID: "TDX_01", Mrsigner: w.Q.MrSignerSeam[:], Attributes: make([]byte, 8), Mask: bytes.Repeat([]byte{0xff}, 8), Levels: []gen.ModuleLevel{{Isvsvn: 0, Status: "UpToDate"}}}}
+				}
 			}
 			if round%2 == 1 {
 				// a PCK leaf whose SGX extension lists its members - and the members of its TCB sequence - in another
